@@ -60,21 +60,36 @@ type Real struct {
 	Note     string // disagreement between ParseValueString and ParseValue
 }
 
-func run(t *vt.Tables, v *vt.Val, format string, ind int, sorted bool, rot *int) (*Real, error) {
+func run(t *vt.Tables, v *vt.Val, format string, ind int, sorted bool, rot *int) (r *Real, err error) {
 	g, err := t.Build(v, rot)
 	if err != nil {
 		return nil, err
 	}
 	old := ggql.Sort
 	ggql.Sort = sorted
-	defer func() { ggql.Sort = old }()
+	defer func() {
+		ggql.Sort = old
+		if p := recover(); p != nil { // a panic of the real code is an outcome, not a failure of the harness
+			if r == nil {
+				r = &Real{Text: []string{}}
+			}
+			if r.Back == nil {
+				r.Back = vt.ErrVal
+			}
+			if r.Jdec == nil {
+				r.Jdec = &vt.Val{K: "none"}
+			}
+			r.WriteErr = fmt.Sprintf("panic: %v", p)
+			err = nil
+		}
+	}()
 	var b bytes.Buffer
 	if format == "sdl" {
 		err = ggql.WriteSDLValue(&b, g, ind)
 	} else {
 		err = ggql.WriteJSONValue(&b, g, ind)
 	}
-	r := &Real{Bytes: b.Bytes(), Text: t.Chars(b.String()), Jdec: &vt.Val{K: "none"}}
+	r = &Real{Bytes: b.Bytes(), Text: t.Chars(b.String()), Jdec: &vt.Val{K: "none"}}
 	if err != nil {
 		r.WriteErr = err.Error()
 	}
@@ -239,7 +254,7 @@ func cmdReplay(args []string) {
 			rep.Sample(map[string]interface{}{"value": c.V, "format": c.Fmt, "indent": c.Ind, "sort": c.Sorted, "written": string(r.Bytes)})
 		}
 		if r.WriteErr != "" {
-			rep.Mismatch(vh.Mismatch{Case: caseInfo(t, c, r, "write"), What: "the writer returned an error: " + r.WriteErr})
+			rep.Mismatch(vh.Mismatch{Case: caseInfo(t, c, r, "write"), What: "writing or reading failed: " + r.WriteErr})
 			continue
 		}
 		if r.Note != "" {
@@ -463,7 +478,7 @@ func cmdRecord(args []string) {
 			rep.Sample(map[string]interface{}{"value": v, "format": format, "indent": ind, "sort": sorted, "written": string(r.Bytes)})
 		}
 		if r.WriteErr != "" {
-			rep.Mismatch(vh.Mismatch{Case: caseInfo(t, c, r, "write"), What: "the writer returned an error: " + r.WriteErr})
+			rep.Mismatch(vh.Mismatch{Case: caseInfo(t, c, r, "write"), What: "writing or reading failed: " + r.WriteErr})
 		}
 		if r.Note != "" {
 			rep.Mismatch(vh.Mismatch{Case: caseInfo(t, c, r, "back"), What: "the two reader entry points disagree: " + r.Note})
